@@ -126,7 +126,7 @@ impl Gen {
         }
         s
     }
-    fn string(&mut self) -> String { let r = &mut self.r; r.pick(&["\"foo\"", "\"a:b/c@1.0.0\"", "\"with space\"", "\"[method]x.y\"", "\"é\""]).to_string() }
+    fn string(&mut self) -> String { let r = &mut self.r; r.pick(&["\"foo\"", "\"a:b/c@1.0.0\"", "\"with space\"", "\"[method]x.y\"", "\"é\"", "\"two\nlines\"", "\"  lead\n\n  trail  \""]).to_string() }   // a string literal may span lines: its text is copied, not re-indented
     fn expr(&mut self, depth: usize) -> String {
         let mut s = match if depth == 0 { 2 } else { self.r.below(4) } {
             0 | 1 => {
@@ -243,7 +243,10 @@ fn roundtrip(src: &str, origin: &str) -> Result<bool, String> {
 /// line endings are layout: the same document with CRLF line endings parses to the same tree (and so prints the same)
 fn crlf_same(src: &str, origin: &str) -> Result<(), String> {
     if src.contains('\r') { return Ok(()); }
-    let crlf = src.replace('\n', "\r\n");
+    // (line endings INSIDE a string literal are part of its value and stay as they are; the generator's comments hold no quotes)
+    let mut crlf = String::with_capacity(src.len() + 64);
+    let mut in_string = false;
+    for c in src.chars() { if c == '"' { in_string = !in_string; } if c == '\n' && !in_string { crlf.push('\r'); } crlf.push(c); }
     let (Ok(t1), Ok(t2)) = (Document::parse(src), Document::parse(&crlf)) else { return Err(format!("the document is accepted with LF line endings but not with CRLF line endings; {origin}\n{src}")) };
     let (mut j1, mut j2) = (serde_json::to_value(&t1).unwrap(), serde_json::to_value(&t2).unwrap());
     strip(&mut j1); strip(&mut j2);
